@@ -128,8 +128,6 @@ def removeEntry (es : List Entry) (ep conn id : Nat) : List Entry := es.filter (
 
 /-! ### who keeps a storage entry alive -/
 
-def linksOk (cut : List Nat) (links : List Nat) : Bool := links.all (fun c => !cut.contains c)
-
 def HSt.id? : HSt → Option Nat
   | .created _ => none
   | .received _ i => some i
@@ -140,7 +138,13 @@ def HSt.obj? : HSt → Option Nat
   | .received o _ => some o
   | .remote _ => none
 
-/-- a handle that holds an intact clone of the dropped-notification sender of `id` -/
+/-- every connection of a notification chain is still up -/
+def linksOk (cut : List Nat) (links : List Nat) : Bool := links.all (fun c => !cut.contains c)
+
+/-- A handle that holds a clone of the dropped-notification sender of `id` whose chain back to
+the creator is intact.  (A sender whose chain is broken delivers a *final* error to the
+notification receiver; `rch::mpsc::Receiver::recv` holds final errors back until every other
+sender is gone, so a broken sender counts exactly like a dropped one.) -/
 def Handle.holds (cut : List Nat) (id : Nat) (h : Handle) : Bool :=
   h.alive && h.st.id? == some id && linksOk cut h.links
 
@@ -213,7 +217,10 @@ def deliver (s : State) (m : Nat) : Option State :=
           msgs := msgs, handles := s.handles ++ [⟨mg.dst, .remote mg.id, true, mg.links, mg.origin⟩] }
     else none
 
-/-- the message is discarded without being deserialized (receiver dropped, connection failed) -/
+/-- The message is discarded without being deserialized (its receiver is dropped).  The port
+request of the notification sender inside it is rejected; the sending side reports
+`Err(RemoteConnect)` — a final error, held back by the notification receiver — and drops that
+sender: one holder less. -/
 def lose (s : State) (m : Nat) : Option State :=
   match s.msgs[m]? with
   | none => none
@@ -257,11 +264,17 @@ def setProv (s : State) (o : Nat) (p : Prov) : Option State :=
   | some ob => if ob.prov = .held then some { s with objs := s.objs.set o { ob with prov := p } } else none
   | none => none
 
-def cutConn (s : State) (c : Nat) : Option State :=
-  if c < s.topo.length ∧ ¬ c ∈ s.cut then some { s with cut := c :: s.cut } else none
+def loseOn (c : Nat) (m : Msg) : Msg := if m.conn = c ∧ m.st = .flying then { m with st := .lost } else m
 
-/-- The wait condition of the task spawned in `serialize` is met: no notification sender left,
-provider dropped, or connection failed. -/
+/-- Connection `c` fails: messages in flight on it are lost; notification chains that pass it are
+broken (`linksOk`). -/
+def cutConn (s : State) (c : Nat) : Option State :=
+  if c < s.topo.length ∧ ¬ c ∈ s.cut then
+    some { s with cut := c :: s.cut, msgs := s.msgs.map (loseOn c) }
+  else none
+
+/-- The wait condition of the task spawned in `serialize` is met: no intact notification sender
+left, provider dropped, or the connection of the storage failed (which breaks every chain). -/
 def releasable (s : State) (e : Entry) : Bool :=
   holders s e.id == 0 || (match s.objs[e.obj]? with | some ob => ob.prov == .dropped | none => false)
     || s.cut.contains e.conn
